@@ -323,6 +323,11 @@ func runC06Driver(c *Ctx) {
 					err = tx.Commit()
 					e.ClearFaults()
 				}
+				if errors.Is(err, fence.ErrPhaseAlreadyApplied) {
+					// nothing to do for this delivery: the application returns the error, the resource manager answers
+					// the coordinator "done" (see rm-* below)
+					err = nil
+				}
 				if err != nil {
 					res = "refused"
 				}
@@ -359,7 +364,6 @@ func runC06Driver(c *Ctx) {
 		c.Out.Oracle(cid, class == "", class, leak+crash)
 		tag := fmt.Sprintf("nontrivial=%d", b2i(len(seq) > 1))
 		if skipType {
-			tag += " known=fence_driver_cannot_say_skip"
 			c.Out.Count("fence-driver.with-a-delivery-to-skip")
 		}
 		c.Out.Tag(cid, tag)
@@ -369,6 +373,7 @@ func runC06Driver(c *Ctx) {
 
 func runC06(c *Ctx) {
 	defer runC06Driver(c)
+	defer runC06UnderRM(c)
 	rng := NewRng(c.Seed)
 	phases := []byte{'P', 'C', 'R'}
 	var seqs [][]c06Tok
